@@ -9,15 +9,33 @@
   The harness splits a real text at its first `ballots=` line (as `_load_system` does), classifies the lines with
   Python's own predicates and compares writer and reader with this model.
 
-  NOT modelled: lexing (`#` comments, strip, split, `str(weight)`, `Fraction()/Decimal()/int()` of a multiplier, the
-  regular expression and `str.lower` behind `_name_to_initials` — a candidate comes with its initials), the system
-  header (`title`/`method`/`quota`/`seats`/`random` and `_create_system`), BLT mode (`ballots=blt`, see
-  VotelibModel.Blt) and the ordered ballot format (`order=`): these answer `Err.other "unmodelled"`.
+  The system header (`title` / `method` / `quota` / `seats` / `random`) is modelled too: `dumpSys` mirrors `_dump_system`,
+  `_dump_tveval`, `_dump_tiebreaker` (L88-151) on a tree of wrappers, `createSystem` mirrors `_create_system` /
+  `_create_evaluator` / `_add_tiebreaker` / `_add_fixed_seats` (L393-485) on the collected header values and returns a
+  summary (title, seats, quota, mandatory flag, tie-break) of the system that is built.
+
+  NOT modelled: lexing (`#` comments, strip, split, `str(weight)`, `Fraction()/Decimal()/int()` of a multiplier,
+  `str.isdigit` / `int()` of a header value — a value comes with these classifications, the regular expression and
+  `str.lower` behind `_name_to_initials` — a candidate comes with its initials), BLT mode (`ballots=blt` or
+  `method=blt`, see VotelibModel.Blt) and the ordered ballot format (`order=`): these answer `Err.other "unmodelled"`.
   Import-free.
 -/
 import VotelibModel.Core
 namespace VL.StvFile
 open VL
+
+/-- the value of a `key=value` line as `_create_evaluator` looks at it: its text, `value.isdigit()` together with
+    `int(value)` (`digits`; `udigit` = isdigit() holds but int() refuses), and `int(value)` alone (`intv`, used for
+    seats, which accepts signs) -/
+structure SVal where
+  text : String
+  digits : Option Nat
+  udigit : Bool
+  intv : Option Int
+deriving DecidableEq, Repr, Inhabited
+
+def SVal.word (s : String) : SVal := { text := s, digits := none, udigit := false, intv := none }
+def SVal.num (n : Nat) : SVal := { text := toString n, digits := some n, udigit := false, intv := some n }
 
 /-- header-phase view of a line -/
 inductive HLine where
@@ -29,7 +47,7 @@ inductive HLine where
   | ballotsBlt                                       -- ballots=blt
   | ballotsBad                                       -- ballots=<anything else>
   | order (nicks : List String)
-  | other (key value : String)                       -- system header keys
+  | other (key : String) (value : SVal)              -- system header keys
 deriving DecidableEq, Repr, Inhabited
 
 /-- first item of a ballot line -/
@@ -101,10 +119,61 @@ def voteLine (nicks : List String) (b : List Nat × Weight) : VLine :=
     | [] => VLine.blank                      -- the empty string is written
     | s :: rest => if s = "end" ∧ rest = [] then VLine.endLine else VLine.items (First.word s) rest
 
-def dumpStv (d : Doc Weight) : List HLine × List VLine :=
+/-- the tie-breaker handed to `TieBreaking` as `_dump_tiebreaker` (L140-151) sees it -/
+inductive Tb where
+  | order                                   -- InputOrderSelector / CandidateNumberRanker
+  | sortitor (seed : Option Nat)
+  | pre (simpleConverter : Bool) (inner : Tb)      -- PreConverted(converter, evaluator); converter in RANKED_TO_SIMPLE?
+  | unsupported
+deriving DecidableEq, Repr, Inhabited
+
+/-- the system handed to the writer, as `_dump_system` (L88-108) takes it apart -/
+inductive Sys where
+  | voting (name : SVal) (e : Sys)          -- VotingSystem(name, evaluator); `name` is `str(name)` with its classification
+  | fixed (n : Nat) (e : Sys)               -- FixedSeatCount(evaluator, n)
+  | tie (main : Sys) (tb : Tb)              -- TieBreaking(main, tiebreaker)
+  | tv (retainerNone elimLast gregory : Bool) (quotaName : Option String) (mandatory : Bool)
+                                            -- TransferableVoteSelector / Distributor; quotaName = quota_function.__name__ if any
+  | other                                   -- any other evaluator: nothing is written
+deriving DecidableEq, Repr, Inhabited
+
+def notSupported : Err := Err.other "NotSupportedInFormat"
+
+/-- `_dump_tiebreaker` (L140-151) -/
+def dumpTb : Tb → Except Err (List (String × SVal))
+  | .pre ok inner => if ok then dumpTb inner else throw notSupported
+  | .order => pure [("random", SVal.word "non")]
+  | .sortitor (some n) => pure [("random", SVal.num n)]
+  | .sortitor none => pure []
+  | .unsupported => throw notSupported
+
+/-- `_dump_tveval` (L111-131) with `output_method=True` -/
+def dumpTv (retainerNone elimLast gregory : Bool) (quotaName : Option String) (mandatory : Bool) :
+    Except Err (List (String × SVal)) := do
+  if !retainerNone then throw notSupported
+  if !elimLast then throw notSupported
+  if !gregory then throw notSupported
+  let q ← (match quotaName with
+    | some n => if n = "droop" ∨ n = "hare" then pure [("quota", SVal.word n)] else throw notSupported
+    | none => pure [])
+  pure ([("method", SVal.word "BC")] ++ q ++ (if mandatory then [("quota", SVal.word "mandatory")] else []))
+
+/-- `_dump_system` (L88-108) -/
+def dumpSys : Sys → Except Err (List (String × SVal))
+  | .voting name e => do let r ← dumpSys e; pure (("title", name) :: r)
+  | .fixed n e => do let r ← dumpSys e; pure (("seats", SVal.num n) :: r)
+  | .tie m tb => do let r ← dumpSys m; let t ← dumpTb tb; pure (r ++ t)
+  | .tv a b c q m => dumpTv a b c q m
+  | .other => pure []
+
+/-- `dump_lines` with a system (L72-76) -/
+def dumpStv (sys : Sys) (seatsArg : Option Nat) (d : Doc Weight) : Except Err (List HLine × List VLine) := do
+  let sl ← dumpSys sys
+  let arg := (match seatsArg with | some n => [("seats", SVal.num n)] | none => [])
   let nicks := candidateNicks (d.cands.map (·.2.2))
-  let hdr := (d.cands.zip nicks).map (fun p => HLine.cand p.1.2.1 p.2 p.1.1) ++ [HLine.ballotsN d.ballots.length]
-  (hdr, d.ballots.map (voteLine nicks) ++ [VLine.endLine])
+  let hdr := (sl ++ arg).map (fun p => HLine.other p.1 p.2)
+    ++ (d.cands.zip nicks).map (fun p => HLine.cand p.1.2.1 p.2 p.1.1) ++ [HLine.ballotsN d.ballots.length]
+  pure (hdr, d.ballots.map (voteLine nicks) ++ [VLine.endLine])
 
 /-! ### reader -/
 
@@ -115,19 +184,128 @@ def nickSet : List (String × Nat) → String → Nat → List (String × Nat)
   | [], k, v => [(k, v)]
   | (k', v') :: t, k, v => if k' = k then (k', v) :: t else (k', v') :: nickSet t k v
 
-/-- `_load_system` (L252-290) as far as the section goes: candidates, nick table, ballot count -/
-def loadHeader : List HLine → List (String × Bool) → List (String × Nat) →
-    Except Err (List (String × Bool) × List (String × Nat) × Nat)
-  | [], _, _ => throw Err.parseError                                     -- L290: end of file before ballot data
-  | .blank :: rest, cs, nk => loadHeader rest cs nk
-  | .invalid :: _, _, _ => throw Err.parseError                          -- L302
-  | .cand w nick name :: rest, cs, nk => loadHeader rest (cs ++ [(name, w)]) (nickSet nk nick cs.length)
-  | .candBad :: _, _, _ => throw (Err.other "ValueError")                -- L278
-  | .ballotsN n :: _, cs, nk => pure (cs, nk, n)
-  | .ballotsBlt :: _, _, _ => throw unmodelled
-  | .ballotsBad :: _, _, _ => throw Err.parseError                       -- L311
-  | .order _ :: _, _, _ => throw unmodelled
-  | .other _ _ :: rest, cs, nk => loadHeader rest cs nk                  -- system settings: not modelled
+/-! ### system header -/
+
+/-- a collected header value: a repeated key nests into pairs, `syscomps[key] = (syscomps[key], value)` (L286-287) -/
+inductive HV where
+  | one (v : SVal)
+  | pair (a : HV) (b : SVal)
+deriving DecidableEq, Repr, Inhabited
+
+def compsSet : List (String × HV) → String → SVal → List (String × HV)
+  | [], k, v => [(k, .one v)]
+  | (k', h) :: t, k, v => if k' = k then (k', .pair h v) :: t else (k', h) :: compsSet t k v
+
+inductive Quota where
+  | name (s : String)          -- votelib.component.quota.get(name)
+  | const (n : Nat)            -- quota.constant(int)
+deriving DecidableEq, Repr, Inhabited
+
+/-- what the system `_create_system` builds amounts to -/
+structure Summary where
+  title : Option String
+  seats : Option Int
+  quota : Quota
+  mandatory : Bool
+  random : Option (Option Nat)     -- none: no tie-breaker; some none: `random=non`; some (some n): Sortitor(seed=n)
+deriving DecidableEq, Repr, Inhabited
+
+/-- the names in `votelib.component.quota.QUOTAS` (checked against the registry by the harness) -/
+def knownQuotas : List String :=
+  ["hare", "hare_rounded", "droop", "hagenbach_bischoff", "hagenbach_bischoff_ceil", "hagenbach_bischoff_rounded", "imperiali"]
+
+def sysKeys : List String := ["title", "method", "quota", "seats", "random"]
+
+/-- L399-403: a repeated `title=` is refused -/
+def sysTitle (comps : List (String × HV)) : Except Err (Option String) :=
+  match comps.lookup "title" with
+  | none => pure none
+  | some (.one v) => pure (some v.text)
+  | some (.pair _ _) => throw Err.parseError
+
+/-- L415-423: the method; a repeated `method=` is a tuple, which is `!= 'blt'` -/
+def sysMethod (comps : List (String × HV)) : Except Err String :=
+  match comps.lookup "method" with
+  | some (.pair _ _) => throw Err.notImplemented
+  | none => throw Err.parseError                                   -- L420-421 `not method`
+  | some (.one v) =>
+      if v.text = "" then throw Err.parseError
+      else if v.text = "blt" then throw unmodelled
+      else if v.text = "BC" ∨ v.text = "GPCA2000" then pure v.text
+      else throw Err.notImplemented
+
+/-- L416-417 and L424-431: which quota setting is used, and whether `mandatory` was among them -/
+def sysQuotaSel (method : String) (comps : List (String × HV)) : Except Err (Option HV × Bool) :=
+  let quota0 : Option HV := if method = "GPCA2000" then some (.pair (.one (SVal.word "droop")) (SVal.word "mandatory"))
+                           else comps.lookup "quota"
+  match quota0 with
+  | some (.pair a b) =>
+      let aM := (match a with | .one v => decide (v.text = "mandatory") | _ => false)
+      let bM := decide (b.text = "mandatory")
+      if aM || bM then
+        (if !aM then pure (some a, true) else if !bM then pure (some (HV.one b), true)
+         else throw (Err.other "IndexError"))                      -- tuple(...)[0] of nothing
+      else throw Err.parseError                                    -- L431
+  | some (.one v) => pure (some (HV.one v), false)
+  | none => pure (none, false)
+
+/-- L432-442 -/
+def sysQuota : Option HV → Except Err Quota
+  | none => throw Err.parseError
+  | some (.pair _ _) => throw (Err.other "AttributeError")         -- tuple.isdigit
+  | some (.one v) =>
+      if v.udigit then throw (Err.other "ValueError")              -- int() of exotic digits
+      else match v.digits with
+        | some n => pure (Quota.const n)
+        | none => if knownQuotas.contains v.text then pure (Quota.name v.text) else throw Err.parseError
+
+/-- L451-452, `_add_tiebreaker` L458-473 -/
+def sysRandom (comps : List (String × HV)) : Except Err (Option (Option Nat)) :=
+  match comps.lookup "random" with
+  | some (.pair _ _) => throw (Err.other "AttributeError")
+  | some (.one v) =>              -- (a value classified as digits is neither empty nor 'non': the tests commute)
+      if v.udigit then throw (Err.other "ValueError")
+      else match v.digits with
+        | some n => pure (some (some n))
+        | none => if v.text = "" then pure none
+                  else if v.text = "non" then pure (some none)
+                  else throw Err.parseError
+  | none => pure none
+
+/-- L453-454, `_add_fixed_seats` L476-485 -/
+def sysSeats (comps : List (String × HV)) : Except Err (Option Int) :=
+  match comps.lookup "seats" with
+  | some (.pair _ _) => throw (Err.other "TypeError")              -- int(tuple)
+  | some (.one v) =>              -- (`int('')` fails, so an empty value has no `intv`)
+      match v.intv with
+      | some z => pure (some z)
+      | none => if v.text = "" then pure none else throw Err.parseError
+  | none => pure none
+
+/-- `_create_system(**syscomps)` (L393-406) with `_create_evaluator` (L409-455) -/
+def createSystem (comps : List (String × HV)) : Except Err Summary := do
+  if comps.any (fun c => !sysKeys.contains c.1) then throw (Err.other "TypeError")      -- unexpected keyword argument
+  let title ← sysTitle comps
+  let method ← sysMethod comps
+  let (quota1, mandatory) ← sysQuotaSel method comps
+  let quota ← sysQuota quota1
+  let random ← sysRandom comps
+  let seats ← sysSeats comps
+  pure { title := title, seats := seats, quota := quota, mandatory := mandatory, random := random }
+
+/-- `_load_system` (L252-290): candidates, nick table, system settings, ballot count -/
+def loadHeader : List HLine → List (String × Bool) → List (String × Nat) → List (String × HV) →
+    Except Err (List (String × Bool) × List (String × Nat) × Summary × Nat)
+  | [], _, _, _ => throw Err.parseError                                     -- L290: end of file before ballot data
+  | .blank :: rest, cs, nk, sc => loadHeader rest cs nk sc
+  | .invalid :: _, _, _, _ => throw Err.parseError                          -- L302
+  | .cand w nick name :: rest, cs, nk, sc => loadHeader rest (cs ++ [(name, w)]) (nickSet nk nick cs.length) sc
+  | .candBad :: _, _, _, _ => throw (Err.other "ValueError")                -- L278
+  | .ballotsN n :: _, cs, nk, sc => do let sys ← createSystem sc; pure (cs, nk, sys, n)      -- L271-274
+  | .ballotsBlt :: _, _, _, _ => throw unmodelled
+  | .ballotsBad :: _, _, _, sc => do let _ ← createSystem sc; throw Err.parseError   -- L272-273: the system is built first
+  | .order _ :: _, _, _, _ => throw unmodelled
+  | .other k v :: rest, cs, nk, sc => loadHeader rest cs nk (compsSet sc k v)    -- L286-289
 
 /-- `votes[vote] += mult` on a `defaultdict(int)` -/
 def addVote : List (List Nat × Rat) → List Nat → Rat → List (List Nat × Rat)
@@ -159,10 +337,10 @@ def loadVotes (nk : List (String × Nat)) (n : Nat) : List VLine → Nat → Lis
           loadVotes nk n rest (i + 1) (addVote acc b 1)
 
 /-- `load_lines` (L225-249) on a text split at its first `ballots=` line, own (unordered) format -/
-def loadStv (hdr : List HLine) (votes : List VLine) : Except Err (Doc Rat × List (String × Bool)) := do
-  let (cs, nk, n) ← loadHeader hdr [] []
+def loadStv (hdr : List HLine) (votes : List VLine) : Except Err (Doc Rat × List (String × Bool) × Summary) := do
+  let (cs, nk, sys, n) ← loadHeader hdr [] [] []
   let bs ← loadVotes nk n votes 0 []
-  pure ({ cands := cs.map (fun c => (c.1, c.2, "")), ballots := bs }, cs)
+  pure ({ cands := cs.map (fun c => (c.1, c.2, "")), ballots := bs }, cs, sys)
 
 /-! ### well-formedness for the round trip -/
 
@@ -177,5 +355,34 @@ def wfStv (d : Doc Weight) : Bool :=
 
 def eraseDoc (d : Doc Weight) : Doc Rat :=
   { cands := d.cands.map (fun c => (c.1, c.2.1, "")), ballots := d.ballots.map (fun b => (b.1, b.2.val)) }
+
+
+/-- the system shapes of the round-trip theorem: `VotingSystem(title, FixedSeatCount(TieBreaking(TransferableVoteSelector(
+    quota, Gregory, mandatory), PreConverted(RankedToPresenceCounts, tie-breaker)), n))` with every wrapper optional -/
+structure SysDoc where
+  title : Option SVal
+  seatsFixed : Option Nat
+  seatsArg : Option Nat
+  random : Option (Option Nat)
+  quota : String
+  mandatory : Bool
+deriving DecidableEq, Repr
+
+def SysDoc.toSys (d : SysDoc) : Sys :=
+  let tv := Sys.tv true true true (some d.quota) d.mandatory
+  let t := (match d.random with
+    | none => tv
+    | some none => Sys.tie tv (.pre true .order)
+    | some (some n) => Sys.tie tv (.pre true (.sortitor (some n))))
+  let f := (match d.seatsFixed with | some n => Sys.fixed n t | none => t)
+  match d.title with | some v => Sys.voting v f | none => f
+
+/-- a quota the format names, seats given at most once (by the wrapper or by the argument) -/
+def wfSys (d : SysDoc) : Bool :=
+  (d.quota = "droop" || d.quota = "hare") && !(d.seatsFixed.isSome && d.seatsArg.isSome)
+
+def SysDoc.summary (d : SysDoc) : Summary :=
+  { title := d.title.map (·.text), seats := (d.seatsFixed.orElse (fun _ => d.seatsArg)).map (fun n => (n : Int)),
+    quota := Quota.name d.quota, mandatory := d.mandatory, random := d.random }
 
 end VL.StvFile
